@@ -59,6 +59,26 @@ TPar ==
            /\ hdr' = S2.hdr /\ sampled' = S2.sampled /\ pruned' = S2.pruned /\ meta' = S2.meta
            /\ res' = rg
 
+\* Any two operations issued concurrently (the syncer inserts while the pruner removes and the sampler marks /
+\* records metadata): x, y are records [k, b | h, cs]; one of the two orders must explain results and store.
+OpResOkIn(S, o, r) ==
+    IF o.k = "insert" THEN ResOkIn(S, BatchOf(o.b), r) ELSE r = HeightResIn(S, o.h)
+OpAfterIn(S, o, r) ==
+    IF r # ROk THEN S
+    ELSE CASE o.k = "insert" -> InsertIn(S, BatchOf(o.b))
+           [] o.k = "remove" -> RemoveIn(S, o.h)
+           [] o.k = "mark"   -> MarkIn(S, o.h)
+           [] OTHER          -> MetaIn(S, o.h, ToSet(o.cs))
+TPar2 ==
+    \E ord \in {1, 2} :
+        LET f  == IF ord = 1 THEN Ev.x ELSE Ev.y      rf == IF ord = 1 THEN Ev.rx ELSE Ev.ry
+            g  == IF ord = 1 THEN Ev.y ELSE Ev.x      rg == IF ord = 1 THEN Ev.ry ELSE Ev.rx
+            S1 == OpAfterIn(CurStoreState, f, rf)
+            S2 == OpAfterIn(S1, g, rg)
+        IN /\ OpResOkIn(CurStoreState, f, rf) /\ OpResOkIn(S1, g, rg)
+           /\ hdr' = S2.hdr /\ sampled' = S2.sampled /\ pruned' = S2.pruned /\ meta' = S2.meta
+           /\ res' = rg
+
 TStep ==
     /\ l <= Len(Rec) /\ l' = l + 1
     /\ LET n == Ev.name IN
@@ -67,6 +87,7 @@ TStep ==
                        /\ UNCHANGED <<hdr, sampled, pruned, meta, res>>
        \/ n = "insert" /\ TInsert /\ Observed(Ev.st) /\ UNCHANGED D
        \/ n = "par"    /\ TPar /\ Observed(Ev.st) /\ UNCHANGED D
+       \/ n = "par2"   /\ TPar2 /\ Observed(Ev.st) /\ UNCHANGED D
        \/ n = "remove" /\ RemoveHeight(Ev.h) /\ res' = Ev.res /\ Observed(Ev.st) /\ UNCHANGED D
        \/ n = "mark"   /\ MarkSampled(Ev.h) /\ res' = Ev.res /\ Observed(Ev.st) /\ UNCHANGED D
        \/ n = "meta"   /\ UpdateMeta(Ev.h, ToSet(Ev.cs)) /\ res' = Ev.res /\ Observed(Ev.st) /\ UNCHANGED D
